@@ -56,6 +56,17 @@ func runExec(t *testing.T, s *Scenario, prop string) emit.Case {
 		if o.ErrCls == 99 {
 			sig = "execute-hang"
 		}
+		if prop == "C11" && o.ErrCls == 0 && s.Genesis != nil {
+			need := s.Rules.MinBlockGap
+			if len(s.Txs) == 0 && s.Rules.MinEmptyBlockGap > need {
+				need = s.Rules.MinEmptyBlockGap
+			}
+			// accepted because it satisfies the gap against the STATE timestamp 0, although it is earlier than
+			// (genesis header timestamp + gap): the one known finding of C11
+			if s.BlockTs < int64(s.parentBlockTs())+need && s.BlockTs >= int64(s.ParentTs)+need && s.BlockH == 1 && s.RootOK {
+				sig = "child-of-genesis-checked-against-state-timestamp-0"
+			}
+		}
 		if prop == "C07" && o.ErrCls == 0 {
 			for i, r := range o.Results {
 				if r.Fee > s.Txs[i].MaxFee {
@@ -64,10 +75,18 @@ func runExec(t *testing.T, s *Scenario, prop string) emit.Case {
 			}
 		}
 	}
+	nontrivial := len(s.Txs) >= 2 && conflicts
+	if prop == "C11" {
+		gap := s.BlockTs - int64(s.ParentTs)
+		nontrivial = s.Genesis != nil || !s.RootOK || s.BlockH != s.ParentH+1 || s.TooLate || (gap >= 99 && gap <= 101) || (gap >= 749 && gap <= 751) || gap <= 0
+	}
+	if prop == "C24" {
+		nontrivial = len(s.Txs) >= 2 && (conflicts || s.FailKey != nil)
+	}
 	return emit.Case{
 		Coq:        s.coq(txs, outs),
 		JSON:       execMirror{s, outs},
-		Nontrivial: len(s.Txs) >= 2 && conflicts,
+		Nontrivial: nontrivial,
 		Kind:       kind,
 		Sig:        sig,
 	}
@@ -89,6 +108,15 @@ func TestDriver(t *testing.T) {
 			t.Fatal(err)
 		}
 		for _, raw := range raws {
+			var gm genesisMirror
+			if err := json.Unmarshal(raw, &gm); err == nil && gm.Genesis != nil {
+				c, err := runGenesis(gm.Genesis)
+				if err != nil {
+					t.Fatal(err)
+				}
+				_ = w.Put(c)
+				continue
+			}
 			var bm buildMirror
 			if err := json.Unmarshal(raw, &bm); err == nil && bm.Build != nil {
 				c, err := runBuild(bm.Build)
@@ -120,7 +148,25 @@ func TestDriver(t *testing.T) {
 		}
 		return
 	}
+	if env.Prop == "C27" {
+		for i := 0; i < env.N; i++ {
+			c, err := runGenesis(genGenesisScenario(r))
+			if err != nil {
+				t.Fatalf("harness error: %v", err)
+			}
+			_ = w.Put(c)
+		}
+		return
+	}
 	for i := 0; i < env.N; i++ {
+		if env.Prop == "C11" && i%3 == 0 {
+			gs, err := genGenesisChild(r)
+			if err != nil {
+				t.Fatalf("harness error: %v", err)
+			}
+			_ = w.Put(runExec(t, gs, env.Prop))
+			continue
+		}
 		if env.Prop == "C06" {
 			ms := genMorpheusScenario(r)
 			if r.Intn(2) == 0 {
